@@ -1388,52 +1388,52 @@ def classify_complex(case, exc):
 PROPERTY = Property(
     "C08", "Antenna response is linear, rotation-covariant, scales fields by antenna factor",
     [
-        SubCheck("reference", reference_cases(), check_reference, quick=3200, thorough=160000,
+        SubCheck("reference", reference_cases(), check_reference, quick=2400, thorough=120000,
                  rule="harness antenna (random frame, position, factor, efficiency, polynomial gains, complex "
                       "response) x signal (sampled/int/list/function/empty, voltage|field) x direction x "
                       "polarization x force_real; non-trivial = output above 1e3 tol, direction given and "
                       "generic, directional gain not constant, frame not the identity",
-                 floors={"field": 0.2, "voltage": 0.2, "function": 0.06, "no_direction": 0.04,
-                         "no_polarization": 0.04, "non_hermitian": 0.2, "pole_or_axis": 0.12,
-                         "force_real": 0.2, "live": 0.4}),
+                 floors={"field": 0.17, "voltage": 0.3, "function": 0.045, "no_direction": 0.03,
+                         "no_polarization": 0.035, "non_hermitian": 0.16, "pole_or_axis": 0.09,
+                         "force_real": 0.13, "live": 0.25}),
         SubCheck("rejects", reject_cases(), check_rejects, quick=1600, thorough=80000,
                  rule="undefined/unknown/None/power signal (enum, str, int spelling) x apply_response | receive "
                       "(bare, list, second of a pair) x bare antenna | AntennaSystem; non-trivial = signal "
                       "not an EmptySignal",
-                 floors={"power": 0.1, "undefined": 0.1, "none": 0.1, "receive_pair": 0.1,
-                         "system_class": 0.1, "dipole": 0.15}),
-        SubCheck("linearity", linear_cases(), check_linear, quick=2000, thorough=100000,
+                 floors={"power": 0.09, "undefined": 0.19, "none": 0.08, "receive_pair": 0.07,
+                         "system_class": 0.06, "system_instance": 0.06, "dipole": 0.15}),
+        SubCheck("linearity", linear_cases(), check_linear, quick=1800, thorough=90000,
                  rule="R(a s1 + b s2) = a R(s1) + b R(s2) for harness antennas and dipoles; non-trivial = "
                       "a, b != 0, s1 and s2 not parallel, output above 1e3 tol",
-                 floors={"dipole": 0.15, "function": 0.1, "field": 0.2, "live": 0.4, "independent": 0.5}),
-        SubCheck("covariance", covariance_cases(), check_covariance, quick=2400, thorough=120000,
+                 floors={"dipole": 0.13, "function": 0.1, "field": 0.2, "live": 0.38, "independent": 0.34}),
+        SubCheck("covariance", covariance_cases(), check_covariance, quick=2000, thorough=100000,
                  rule="axes, direction, polarization rotated by one quaternion, antenna moved elsewhere; "
                       "non-trivial = rotation not the identity, direction generic, output above 1e3 tol",
-                 floors={"dipole": 0.15, "rotated": 0.4, "live": 0.4, "pole_or_axis": 0.12}),
-        SubCheck("dipole", dipole_cases(), check_dipole, quick=2000, thorough=100000,
+                 floors={"dipole": 0.14, "rotated": 0.5, "live": 0.3, "pole_or_axis": 0.1}),
+        SubCheck("dipole", dipole_cases(), check_dipole, quick=1800, thorough=90000,
                  rule="DipoleAntenna (any axis, band, effective height given or default): gain functions, "
                       "Butterworth response and complete response vs analytic model; non-trivial = direction "
                       "and polarization given, direction generic, output above 1e3 tol",
-                 floors={"field": 0.2, "default_height": 0.2, "pole_or_axis": 0.12, "live": 0.3}),
-        SubCheck("receive", receive_cases(), check_receive, quick=2000, thorough=100000,
+                 floors={"field": 0.2, "default_height": 0.26, "pole_or_axis": 0.11, "live": 0.26}),
+        SubCheck("receive", receive_cases(), check_receive, quick=1800, thorough=90000,
                  rule="receive with a bare signal, a 1-list or two polarized components (list/tuple/array "
                       "containers), after 0-2 earlier hits; count and time-grid mismatches must raise; "
                       "non-trivial = two components or a refused call",
-                 floors={"two_components": 0.12, "refused": 0.2, "mixed_types": 0.04, "form_times": 0.04}),
+                 floors={"two_components": 0.11, "refused": 0.19, "mixed_types": 0.04, "form_times": 0.035}),
         SubCheck("system", system_cases(), check_system, quick=1600, thorough=80000,
                  rule="AntennaSystem(class)+setup_antenna | AntennaSystem(instance) against a bare twin and "
                       "the model: apply_response, receive, trigger, set_orientation (good and tilted); "
                       "non-trivial = direction generic, output above 1e3 tol",
-                 floors={"system_class": 0.25, "system_instance": 0.25, "call_pos": 0.25, "force_real": 0.25,
-                         "trigger_yes": 0.15, "trigger_no": 0.1, "live": 0.4}),
+                 floors={"system_class": 0.27, "system_instance": 0.18, "call_pos": 0.18, "force_real": 0.13,
+                         "trigger_yes": 0.37, "trigger_no": 0.11, "live": 0.25}),
         SubCheck("orientation", orientation_cases(), check_orientation, quick=1200, thorough=60000,
                  rule="axes given at construction or by set_orientation: stored normalised, tilted pairs "
                       "(1e-6 .. 1.2 rad) refused, response follows the new frame",
-                 floors={"tilted": 0.4, "orthogonal": 0.12, "via_set": 0.15}),
+                 floors={"tilted": 0.22, "orthogonal": 0.23, "via_set": 0.12}),
         SubCheck("complex_gain", complex_cases(), check_complex, quick=1200, thorough=60000,
                  rule="harness antenna with complex directional / polarization gains; result = filtered "
                       "signal x complex factor; non-trivial = imaginary part of the expectation above 1e3 tol",
-                 floors={"live": 0.3}, classify=classify_complex),
+                 floors={"live": 0.19}, classify=classify_complex),
     ],
     assumptions=[
         "signals have at least two samples on a uniform grid (a single sample defines no frequencies)",
